@@ -107,12 +107,14 @@ standard's static semantics accepts (`flatten p = ok (env, fl)`), the importer m
 `ok` with registers of the standard's sizes and **exactly** the gate list `fl.flatMap gatesOf`:
 for every flat operation of the standard (every broadcast instance, same qubits, same parameter
 expressions, same condition bits and value) the library gate of `shortcut_rows`, in order.
+`hk` (`ifRangeOk`): every `if(c==k)` has `k < 2^n` for the `n`-bit register `c` — `Gate.__init__`
+refuses other values (see `if_value_counterexample`).
 Together with `shortcut_sound` each of these gates is the standard's expansion up to a phase;
 for the condition see `cond_onebit` and the counter-examples below. -/
 theorem import_faithful_partial (p : Program) (hw : W0 p) (env : Env) (fl : List FlatOp)
-    (h : flatten p = .ok (env, fl)) :
+    (h : flatten p = .ok (env, fl)) (hk : ∀ s ∈ p, ifRangeOk env s) :
     importProgram p = .ok (env.qregs.total, env.cregs.total, fl.flatMap gatesOf) :=
-  import_refines p hw env fl h
+  import_refines p hw env fl h hk
 
 private def w0Example : Program :=
   [.version, .incl cs!"qelib1.inc", .qreg cs!"q" 2, .qreg cs!"r" 2, .creg cs!"c" 1,
@@ -123,9 +125,17 @@ private def w0Example : Program :=
 
 /-- the class is not empty: broadcast, a condition, a barrier, a measurement — and the standard
 accepts the program -/
-example : W0 w0Example ∧ (∃ r, flatten w0Example = .ok r) := by
+example : W0 w0Example ∧ (∃ env fl, flatten w0Example = .ok (env, fl) ∧ ∀ s ∈ w0Example, ifRangeOk env s) := by
   refine ⟨⟨⟨[.qreg cs!"q" 2, .qreg cs!"r" 2, .creg cs!"c" 1], _, rfl, by decide, by decide⟩, by decide⟩,
-    ⟨_, rfl⟩⟩
+    ⟨_, _, rfl, ?_⟩⟩
+  intro s hs
+  simp only [w0Example, List.mem_cons, List.not_mem_nil, or_false] at hs
+  rcases hs with rfl | rfl | rfl | rfl | rfl | rfl | rfl | rfl | rfl <;> simp only [ifRangeOk]
+  intro s0 n hf
+  have : (s0, n) = (0, 1) := by
+    have h2 : Regs.find? (({} : Regs).add cs!"c" 1) cs!"c" = some (0, 1) := by decide
+    exact Option.some.inj (hf.symm.trans h2)
+  cases this; decide
 
 /-- on a one-bit register the simulator's test of `classical_controls = [b]`, value `k` is the
 standard's condition `c == k` -/
@@ -225,16 +235,24 @@ theorem if_bitorder_counterexample :
     Cond.holds ⟨[0, 1], 1⟩ st = false :=
   ⟨rfl, by decide, ⟨_, rfl⟩, by decide⟩
 
-/-- `creg c[2]; if(c==5) x q[0];` — never true for the standard, fires on `c[0]=1, c[1]=0` -/
+/-- `creg c[2]; if(c==5) x q[0];` — never true for the standard, hence a well-formed program whose
+conditioned gate never acts.  The importer either refuses it (`Gate.__init__` with the range test
+on `classical_control_value`) or imports a gate that the simulator fires on `c[0]=1, c[1]=0`. -/
 theorem if_value_counterexample :
     let p : Program := [.version, .incl cs!"qelib1.inc", .qreg cs!"q" 1, .creg cs!"c" 2,
       .ifc cs!"c" 5 (.call cs!"x" [] [.idx cs!"q" 0])]
     let st : Nat → Bool := fun b => b == 0
-    importProgram p = .ok (1, 2, [.gate ⟨cs!"X", [0], none, .none, some [0, 1], some 5⟩]) ∧
-    simFires [0, 1] 5 st = true ∧ (∀ s : Nat → Bool, Cond.holds ⟨[0, 1], 5⟩ s = false) := by
-  refine ⟨rfl, by decide, fun s => ?_⟩
-  simp only [Cond.holds, leValue]
-  cases s 0 <;> cases s 1 <;> decide
+    (importProgram p = .error .value ∨
+      (importProgram p = .ok (1, 2, [.gate ⟨cs!"X", [0], none, .none, some [0, 1], some 5⟩]) ∧
+        simFires [0, 1] 5 st = true)) ∧
+    (∃ r, denote p = .ok r) ∧ (∀ s : Nat → Bool, Cond.holds ⟨[0, 1], 5⟩ s = false) := by
+  refine ⟨?_, ⟨_, rfl⟩, fun s => ?_⟩
+  · -- whichever holds for the regenerated table (`Gen.gateChecksControlValue`)
+    first
+      | exact Or.inl rfl
+      | exact Or.inr ⟨rfl, by decide⟩
+  · simp only [Cond.holds, leValue]
+    cases s 0 <;> cases s 1 <;> decide
 
 /-- `if(c==1) measure q[0] -> c[0];` is a well-formed statement of the subset and is refused -/
 theorem if_measure_counterexample :
